@@ -13,8 +13,13 @@
 //	kind 1: System.Runtime.LoadScript(target = script bytes, flags, [acct, rest])   (the dynamic script is body itself)
 //	kind 2: GAS.transfer(self, target, 0, [acct, rest])  -> GAS calls target.onNEP17Payment which continues the chain
 //	kind 3: (leaf) GAS.transfer(acct, target, 0, null)    -> the native contract itself checks the witness of acct
+//	kind 4: System.Runtime.LoadScript(the transaction's own script, flags, [acct, rest]): a dynamic frame whose script
+//	        hash EQUALS the entry script hash although it is not the entry context
+//	kind 5: (no new frame) [5, op, manifest]: the executing contract calls ContractManagement.update(null, manifest, null)
+//	        (op 0) or ContractManagement.destroy() (op 1) on itself, then goes on with the rest of the path
 //
-// The entry script of a case is "push path, push acct, body".
+// The entry script of a case is "if the stack is empty { push path, push acct }, body": loaded as a dynamic script it
+// finds its arguments on the stack and skips its own literals.
 package c15
 
 import (
@@ -62,12 +67,28 @@ const (
 	NGroups
 )
 
-// Hop kinds.
+// Hop kinds of a Case.
 const (
 	HopCall = iota
 	HopDyn
 	HopNative
-	hopGasLeaf // only used inside scripts (Case.Leaf == LeafGas)
+	HopSelf // LoadScript of the entry script's own bytes
+)
+
+// Kinds inside the path interpreted by body.
+const (
+	skCall = iota
+	skDyn
+	skNative
+	skGasLeaf
+	skSelf
+	skMutate
+)
+
+// Mutation ops.
+const (
+	MutUpdate  = "update"
+	MutDestroy = "destroy"
 )
 
 // Leaf kinds.
@@ -82,11 +103,13 @@ type world struct {
 	groupKeys [NGroups]*keys.PublicKey
 	// manifest groups of the deployed contracts, by the harness' own bookkeeping (bitmask over group indices)
 	groupsOf map[util.Uint160]uint8
-	body     []byte
-	dyn      [2][]byte
-	dynHash  [2]util.Uint160
-	unknown  util.Uint160
-	keys     [3]ck.Key
+	// manifests[i][mask]: manifest JSON of contract i with exactly the groups of mask (for ContractManagement.update)
+	manifests [4][1 << NGroups][]byte
+	body      []byte
+	dyn       [2][]byte
+	dynHash   [2]util.Uint160
+	unknown   util.Uint160
+	keys      [3]ck.Key
 }
 
 var (
@@ -109,16 +132,39 @@ func emitBody(b *asm.B) {
 	}
 	packArgs := func() { b.Op(opcode.LDARG1, opcode.LDARG0, opcode.PUSH2, opcode.PACK) } // [acct, rest]
 	b.InitSlot(1, 2)
+	b.Label(l("top"))
 	b.Op(opcode.LDARG1, opcode.SIZE).Jmp(opcode.JMPIFL, l("more"))
 	b.Op(opcode.LDARG0).Syscall("System.Runtime.CheckWitness").Op(opcode.RET)
 	b.Label(l("more"))
 	b.Op(opcode.LDARG1, opcode.PUSH0, opcode.PICKITEM, opcode.STLOC0)
 	b.Op(opcode.LDARG1, opcode.PUSH0, opcode.REMOVE)
-	kind(HopCall, "call")
-	kind(HopDyn, "dyn")
-	kind(HopNative, "nat")
-	kind(hopGasLeaf, "gasleaf")
+	kind(skCall, "call")
+	kind(skDyn, "dyn")
+	kind(skNative, "nat")
+	kind(skGasLeaf, "gasleaf")
+	kind(skSelf, "self")
+	kind(skMutate, "mutate")
 	b.Op(opcode.ABORT)
+
+	b.Label(l("self"))
+	packArgs()
+	b.Op(opcode.LDLOC0, opcode.PUSH2, opcode.PICKITEM)
+	b.Syscall("System.Runtime.GetScriptContainer").Op(opcode.PUSH7, opcode.PICKITEM) // Transaction.Script
+	b.Syscall("System.Runtime.LoadScript").Op(opcode.RET)
+
+	b.Label(l("mutate"))
+	b.Op(opcode.LDLOC0, opcode.PUSH1, opcode.PICKITEM).Jmp(opcode.JMPIFL, l("destroy"))
+	b.Op(opcode.PUSHNULL)
+	b.Op(opcode.LDLOC0, opcode.PUSH2, opcode.PICKITEM)
+	b.Op(opcode.PUSHNULL, opcode.PUSH3, opcode.PACK) // [nef = null, manifest, data = null]
+	b.Int(int64(callflag.All)).Str("update").Bytes(nativehashes.ContractManagement.BytesBE())
+	b.Syscall("System.Contract.Call").Op(opcode.DROP) // a dynamic call of a void method leaves Null
+	b.Jmp(opcode.JMPL, l("top"))
+	b.Label(l("destroy"))
+	b.Op(opcode.NEWARRAY0)
+	b.Int(int64(callflag.All)).Str("destroy").Bytes(nativehashes.ContractManagement.BytesBE())
+	b.Syscall("System.Contract.Call").Op(opcode.DROP) // a dynamic call of a void method leaves Null
+	b.Jmp(opcode.JMPL, l("top"))
 
 	b.Label(l("call"))
 	packArgs()
@@ -216,6 +262,19 @@ func buildWorld() (*world, error) {
 		if err != nil {
 			return nil, err
 		}
+		for m := 0; m < 1<<NGroups; m++ {
+			var mo []asm.ManifestOpt
+			for g := 0; g < NGroups; g++ {
+				if m&(1<<g) != 0 {
+					mo = append(mo, ck.WithGroup(sender, gk[g], plain))
+				}
+			}
+			v, err := buildContract(name, mo...)
+			if err != nil {
+				return nil, err
+			}
+			w.manifests[i][m] = v.Manifest
+		}
 		w.contracts[i] = ck.ContractHash(sender, c)
 		w.groupsOf[w.contracts[i]] = mask
 		bw := io.NewBufBinWriter()
@@ -241,6 +300,28 @@ func buildWorld() (*world, error) {
 		}
 	}
 	return w, nil
+}
+
+// intact verifies that the shared chain state still is what buildWorld made (test executions must not leak).
+func (w *world) intact() error {
+	for i, h := range w.contracts {
+		cs := w.bc.GetContractState(h)
+		if cs == nil {
+			return fmt.Errorf("harness: contract %d disappeared from the shared chain", i)
+		}
+		var m uint8
+		for _, g := range cs.Manifest.Groups {
+			for j, k := range w.groupKeys {
+				if k.Equal(g.PublicKey) {
+					m |= 1 << j
+				}
+			}
+		}
+		if m != w.groupsOf[h] || cs.UpdateCounter != 0 {
+			return fmt.Errorf("harness: contract %d of the shared chain changed (groups %b, updates %d)", i, m, cs.UpdateCounter)
+		}
+	}
+	return nil
 }
 
 // resolve maps a symbolic reference to a hash (entry = hash of the case's entry script).
